@@ -20,13 +20,13 @@ SHAPES_BAD = [
     ("/p/a...b...c", None), ("/.../...", None), ("/p", None), ("p/...", None), ("/p/.../", None), ("/p/...", ""),
     ("/p/...", "/"), ("/p/a/b", "a/b"), ("/p/......", None), ("", None), ("//", None), ("/p/", None),
 ]
-VALUES = ["abc", "01-02-03-04-05-0a", "A", "sys1", "é", "a b", "x-", "-y", "...", "a.txt", "0", "ab", "aba", "."]
+VALUES = ["abc", "01-02-03-04-05-0a", "A", "sys1", "é", "a b", "x-", "-y", "...", "a.txt", "0", "ab", "aba", ".", "0042", "7"]
 SEG_TOKENS = ["", "p", "q", "abc", "a.txt", "...", "..", ".", "%2f", "%2F", "%252f", "%00", "\x00", "?", "?x=/p", "%3f",
               "%c0%af", "%e2%82%ac", "é", "%C3%A9", "%", "%4", "%zz", "AB", "x-", "-y", " ", "%20", "+", "cfg", "r",
               "b", "c.txt", "missing", "%e2%82", "%F0%9F%98%80", "\U0001F600", "%ed%a0%80", "a b", "P"]
 EXTRAS = ["/a.txt", "/b/c.txt", "/missing", "/", "", "//a.txt", "/b", "/b/", "/abc", "/é.txt", "/%C3%A9.txt",
           "/a%20b", "/a.txt?x=1", "/b%2fc.txt", "/b%252fc.txt", "/./a.txt", "/../next.txt", "/b/../a.txt", "?q"]
-TRANSFORMS = [None, None, [{"string.add_prefix": "id-"}], ["string.to_upper"],
+TRANSFORMS = [None, None, [{"string.add_prefix": "id-"}], ["string.to_upper"], ["misc.to_int"],
               [{"string.add_suffix": {"suffix": ".b.example"}}], [{"string.add_prefix": {"prefix": "h-"}}],
               [{"string.add_suffix": ".x"}, "string.to_lower"], ["mac_address.normalize"],
               [{"mac_address.normalize": {"raise_error_if_malformed": True}}]]
